@@ -627,3 +627,13 @@ Proof.
     assert (E2 : (k2 =? dkey d) = false) by (apply N.eqb_neq; congruence).
     now rewrite E1, E2.
 Qed.
+
+Lemma apply_set_semantics old cs l :
+  changes_nonempty cs -> apply_changes old cs = Updated l ->
+  l = spec_apply old cs /\
+  (NoDup (keys l) /\ Forall (fun d => nonempty d = true) l) /\
+  (forall k, In k (keys l) <-> member_after k (negb (k =? 0) && has_key k old) cs = true).
+Proof.
+  intros F H. pose proof (apply_updated_spec old cs l F H) as E. subst l.
+  split; [reflexivity|]. split; [exact (spec_apply_wf old cs F)|exact (spec_apply_member old cs)].
+Qed.
